@@ -9,6 +9,7 @@ package props
 // harness; persistent and ephemeral cron; both states.
 
 import (
+	"encoding/json"
 	"fmt"
 	"sort"
 	"strings"
@@ -85,7 +86,14 @@ type c15Case struct {
 }
 
 var c15Locs = []string{"A", "B", "C"}
-var c15Scheds = []string{"+30m", "+1h", "!2100-01-01T00:00:00Z", "0 0 3 * * * *", "*/5 * * * * * *"}
+var c15Scheds = []string{"+30m", "+1h", "!2100-01-01T00:00:00Z", "0 0 3 * * * *", "*/5 * * * * * *", " +30m", "\t!2100-01-01T00:00:00Z ", " 0 0 3 * * * *"}
+
+// c15OneShot: what the cron services take for a one-shot schedule (they
+// trim the schedule first).
+func c15OneShot(schedule string) bool {
+	s := strings.TrimSpace(schedule)
+	return strings.HasPrefix(s, "+") || strings.HasPrefix(s, "!")
+}
 
 func genC15(t *rapid.T) c15Case {
 	var c c15Case
@@ -98,7 +106,11 @@ func genC15(t *rapid.T) c15Case {
 		l := fmt.Sprintf("op%d", i)
 		loc := c15Locs[rapid.IntRange(0, c.NLocs-1).Draw(t, l+".loc")]
 		id := rapid.SampledFrom(ids).Draw(t, l+".id")
-		switch rapid.SampledFrom([]string{"sched", "sched", "sched", "sched", "rule", "fact", "rem", "rem", "anchor", "remAnchor", "clear", "reload", "tick", "tick", "tick", "disable", "enable"}).Draw(t, l+".kind") {
+		if rapid.IntRange(0, 7).Draw(t, l+".oddid?") == 0 {
+			// ids that need quoting wherever they are put into JSON
+			id = rapid.SampledFrom([]string{`s"3`, `s\4`, `s\"5`, `s 6`}).Draw(t, l+".oddid")
+		}
+		switch rapid.SampledFrom([]string{"sched", "sched", "sched", "sched", "rule", "fact", "rem", "rem", "anchor", "remAnchor", "clear", "reload", "tick", "tick", "tick", "disable", "enable", "delete"}).Draw(t, l+".kind") {
 		case "disable", "enable":
 			c.Ops = append(c.Ops, op{K: "enable", Loc: loc, Id: id, B: rapid.Bool().Draw(t, l+".on")})
 		case "sched":
@@ -120,6 +132,10 @@ func genC15(t *rapid.T) c15Case {
 		case "clear":
 			if rapid.IntRange(0, 1).Draw(t, l+".really") == 0 {
 				c.Ops = append(c.Ops, op{K: "clear", Loc: loc})
+			}
+		case "delete":
+			if rapid.IntRange(0, 1).Draw(t, l+".really") == 0 {
+				c.Ops = append(c.Ops, op{K: "delete", Loc: loc})
 			}
 		case "reload":
 			c.Ops = append(c.Ops, op{K: "reload", Loc: loc})
@@ -202,7 +218,7 @@ func runC15(c c15Case) *vlib.Outcome {
 			}
 			tag := fmt.Sprintf("%s/%s/g%d", x.Loc, x.Id, i)
 			// the action reports the location and rule id it sees
-			rule := M{"schedule": c15Scheds[x.N], "action": M{"code": "'" + tag + "' + '@' + location + '#' + ruleId"}}
+			rule := M{"schedule": c15Scheds[x.N], "action": M{"code": vlib.JSON(tag) + " + '@' + location + '#' + ruleId"}}
 			if len(x.L) > 0 {
 				rule["deleteWith"] = toA(x.L)
 			}
@@ -254,7 +270,7 @@ func runC15(c c15Case) *vlib.Outcome {
 			}
 		case "remAnchor":
 			_, have := ml.Items["anchor"]
-			for _, id := range []string{"s1", "s2"} {
+			for id := range ml.Items {
 				if it, h := ml.Items[id]; h && have && it.Schedule != "" {
 					for _, d := range it.DeleteWith {
 						if d == "anchor" {
@@ -269,6 +285,14 @@ func runC15(c c15Case) *vlib.Outcome {
 		case "clear":
 			if err := w.clear(x.Loc); err != nil {
 				o.Fail("CLEAR_ERROR", "%s: Clear failed: %v", when, err)
+			}
+		case "delete":
+			// deleting the location (what DeleteLocation does)
+			if err := w.locs[x.Loc].Delete(newCtx()); err != nil {
+				o.Fail("DELETE_ERROR", "%s: Delete failed: %v", when, err)
+			} else {
+				ml.clear()
+				o.Label("delete")
 			}
 		case "reload":
 			if c.Persistent {
@@ -309,7 +333,21 @@ func runC15(c c15Case) *vlib.Outcome {
 			}
 			tctx := newCtx()
 			tctx.SetLoc(w.locs[x.Loc])
-			work, cond := w.locs[x.Loc].ProcessEvent(tctx, core.Map{"trigger!": x.Id})
+			// the tick delivers the event the rule was registered with
+			event := core.Map{"trigger!": x.Id}
+			rc.Lock()
+			job := rc.jobs[key]
+			rc.Unlock()
+			if job != nil {
+				var ev map[string]interface{}
+				if err := json.Unmarshal([]byte(job.Event), &ev); err != nil {
+					o.Fail("TICK_EVENT_MALFORMED", "%s: the event registered for %s is not JSON: %q (%v)", when, key, job.Event, err)
+					return o
+				}
+				event = core.Map(ev)
+				o.Label("tick-of-registered-job")
+			}
+			work, cond := w.locs[x.Loc].ProcessEvent(tctx, event)
 			var vals []string
 			if work != nil {
 				for _, v := range work.Values {
@@ -321,7 +359,7 @@ func runC15(c c15Case) *vlib.Outcome {
 				if cond != nil || len(vals) != 1 || vals[0] != wantVal {
 					o.Fail("TICK_DID_NOT_RUN", "%s: the tick of live scheduled rule %s should run exactly that rule, in its location and under its id (value %q); got values %v, condition %v", when, key, wantVal, vals, cond)
 				}
-				if core.OneShotSchedule(it.Schedule) {
+				if c15OneShot(it.Schedule) {
 					// a one-shot rule is deleted after it ran
 					ml.rem(x.Id)
 					ml.rem(propId(x.Id, "disabled"))
